@@ -78,7 +78,7 @@ Proof.
   destruct (wid_eqb (w_id y) id) eqn:E; simpl; [apply IH|rewrite E; apply IH].
 Qed.
 
-Ltac norm := repeat (progress cbn [bind err_of fst snd rsum is_ok rok fail_reply runk]).
+Ltac norm := repeat (progress cbn [bind err_of fst snd rsum is_ok rok fail_reply runk is_faultable]).
 Ltac kcase k := destruct k as [[|k]|]; norm.
 Ltac ncase k := destruct k as [|k]; norm.
 Ltac look := unfold find_wl, find_plug, find_cont, find_node; cbn [w_id w_node w_pod w_res wls plugs conts nodes pods markers walq wal_seq out strict_remove script
